@@ -386,7 +386,12 @@ Run(i, w) ==
       [] s.k = "if"    -> LET ini == ApplyInit(s.init, env, w) r == ReadTape(ini.w, s.c.id) IN
                           IF Panicked(r.w) THEN [st |-> "panic", w |-> r.w]
                           ELSE Run(i, SetK(r.w, i, <<[t |-> "seq", ss |-> IF r.b THEN s.a ELSE s.b, env |-> ini.env]>> \o k1))
-      [] s.k = "switch"-> LET ini == ApplyInit(s.init, env, w) r == ReadTape(ini.w, s.c.id) IN
+      [] s.k = "switch"-> \* an initialiser that is not a declaration (switch Yield(v); tag {..} / switch YieldFrom(g); tag {..})
+                          \* is an ordinary statement executed -- and possibly suspended in -- before the tag is evaluated
+                          IF ~IsNone(s.init) /\ s.init.k \notin {"def", "def2"}
+                          THEN Run(i, SetK(w, i, <<[t |-> "seq", ss |-> <<s.init, [s EXCEPT !.init = None]>>, env |-> env]>> \o k1))
+                          ELSE
+                          LET ini == ApplyInit(s.init, env, w) r == ReadTape(ini.w, s.c.id) IN
                           IF Panicked(r.w) THEN [st |-> "panic", w |-> r.w]
                           ELSE LET j == SelectCase(s.cases, r.b) IN
                                IF j = 0 THEN Run(i, SetK(r.w, i, k1))
@@ -424,7 +429,7 @@ RECURSIVE HasY(_), HasYS(_)
 HasYS(s) == CASE s.k \in {"yield", "yfrom", "yfromit", "nestgen", "ygen"} -> TRUE
               [] s.k = "unsup" -> UnsupYields(s.u)
               [] s.k = "if"     -> HasY(s.a) \/ HasY(s.b)
-              [] s.k = "switch" -> \E j \in 1..Len(s.cases) : HasY(s.cases[j].body)
+              [] s.k = "switch" -> IsYielding(s.init) \/ \E j \in 1..Len(s.cases) : HasY(s.cases[j].body)
               [] s.k \in {"block", "range"} -> HasY(s.body)
               [] s.k = "for"    -> IsYielding(s.init) \/ IsYielding(s.post) \/ HasY(s.body)
               [] OTHER -> FALSE
